@@ -166,13 +166,14 @@ def printed_values(stdout, tag):
     """Extract values printed by PrintT(<<"tag", ...>>) from TLC stdout (robust to multi-line values)."""
     from . import tlaval
     res = []
-    key = '<<"%s"' % tag
+    key = re.compile(r'<<\s*"%s"' % re.escape(tag))
     i = 0
     n = len(stdout)
     while True:
-        j = stdout.find(key, i)
-        if j < 0:
+        mm = key.search(stdout, i)
+        if not mm:
             break
+        j = mm.start()
         depth = 0
         k = j
         instr = False
